@@ -94,6 +94,7 @@ def _note_axioms(log, stub):
 # ---------------------------------------------------------------------------
 def case_simple(log, k):
     _encode(log, "%s.%s" % SIMPLE[k])
+    log.register_replay("S%d:recurrence" % k, (MOD, "replay_simple", {"k": k, "conj": True}), _sampler)
 
     def run():
         h, stub, consts = _setup()
@@ -124,6 +125,7 @@ def case_simple(log, k):
 def case_alternating(log, k):
     """S_-k through cache.get with the parity flag flipped across the step."""
     _encode(log, "cache.get", "cache.update", "cache.update_Sm1", "cache.update_Sm2", "w%d.Sm%d" % (k, k))
+    log.register_replay("Sm%d:recurrence" % k, (MOD, "replay_alt", {"k": k}), _sampler)
 
     def run():
         h, stub, consts = _setup()
@@ -165,6 +167,7 @@ def case_alternating(log, k):
 
 def case_recursive(log, w, iters):
     _encode(log, "polygamma.recursive_harmonic_sum")
+    log.register_replay("recursive_harmonic_sum:w%d" % w, (MOD, "replay_rec", {"w": w, "it": iters[-1]}), _sampler)
 
     def run():
         h, stub, consts = _setup()
